@@ -58,6 +58,9 @@ def source_image(name, style):
 
     from ..imgkit import pattern
 
+    if name.startswith("px"):      # exact pixel size, deliberately off the cell grid
+        pw, ph = (int(v) for v in name[2:].split("x"))
+        return pattern(pw, ph)
     runs = name.startswith("runs")
     cw, ch = (int(v) for v in name[4 if runs else 0:].split("x"))
     if style == "block":
@@ -162,7 +165,7 @@ def run_case(col, case, only_rect=None):
     um = L.urwid_mod
     style, ident, style_spec = KINDS[case["kind"]]
     text = style == "block"
-    world.setup(ident, *TERM, cell=CELL)
+    world.setup(ident, *TERM, cell=tuple(case.get("cell", CELL)))
     L.urwid.CanvasCache.clear()
     img = style_cls(L, style)(source_image(case["img"], style))
     spec = f"{case['h']}.{case['v']}{case['alpha']}{style_spec}"
@@ -396,6 +399,15 @@ def build_cases(tier):
                 for upscale in (False, True):
                     cases.append(dict(kind=kind, img=img, size=[c], h="|", v="-", upscale=upscale, alpha="",
                                       rows_only=True))
+        # pixel sizes that are not multiples of the cell size (the original size in cells is floored, so
+        # fitting to exactly that many columns scales the image DOWN), at two cell sizes
+        for cell, imgs in (((2, 3), ("px5x9", "px7x13", "px9x4", "px3x10", "px11x7")),
+                           ((8, 16), ("px37x90", "px20x50", "px70x33", "px9x17"))):
+            for img in imgs:
+                for c in range(1, 11):
+                    for upscale in (False, True):
+                        cases.append(dict(kind=kind, img=img, size=[c], h="|", v="-", upscale=upscale, alpha="",
+                                          rows_only=True, cell=list(cell)))
         if style == "kitty" or kind == "iterm2-lines@konsole":
             # images that carry a disguise (kitty; iterm2 on konsole): every disguise state
             for dis in ((1, 0), (2, 0), (0, 1), (2, 2)):
@@ -441,7 +453,7 @@ def run(ctx):
     ctx.coverage.update(canvases_in_grid=len(cases), kinds=sorted({c["kind"] for c in cases}),
                         images=sorted({c["img"] for c in cases}),
                         widget_sizes=sorted({tuple(c["size"]) for c in cases}),
-                        alphas=sorted({c["alpha"] for c in cases}), cell_px=list(CELL))
+                        alphas=sorted({c["alpha"] for c in cases}), cell_px=[list(CELL), [8, 16]])
     ctx.assumptions += [
         "vterm (vlib/vterm.py) is the terminal; a canvas row is executed alone on a one-line screen exactly as wide "
         "as the requested rectangle (urwid positions the cursor before every row)",
